@@ -1,7 +1,160 @@
 import IbModel.Util.Wire
-/-! Driver handlers for C12 (request kinds served for that property). -/
-namespace IB.D12
+import IbModel.Util.Sha256
+import IbModel.Model.Checkpoint
+import IbModel.Generated.Tables
+/-!
+Driver handlers for C12 (checkpoint store). All strings / names travel as lower-case hex of their bytes.
 
-def handlers : List (String × (List String → String)) := []
+* `CKPT-ENC <fields>`                              ↦ `OK <hex encode> | <load answer>`
+* `CKPT-DEC <hex|->`                               ↦ `OK <fields>` | `ERR <class>` | `PANIC` | `ABORT`
+* `CKPT-SAVE max=<none|n> pid=<hex> ts=<n> dir=<names>` ↦ `OK <names>`
+* `CKPT-LATEST en=<T|F> pid=<hex> dir=<names>`     ↦ `SOME <name>` | `NONE`
+* `CKPT-CLEAR pid=<hex> dir=<names>`               ↦ `OK <names>`
+* `CKPT-POLICY en=<T|F> pol=<barrier|every:n|time:s|hybrid:<T|F>:s> idx=<n> barrier=<T|F> last=<none|ago:s|future:s>` ↦ `T` | `F`
+
+The hash parameter `H` of the model is instantiated with `IB.Sha256.sha256Hex`; the decode limit with the
+constant printed from the running code (`IB.Generated.ckptDecodeLimit`).
+-/
+namespace IB.D12
+open IB.Wire IB.Checkpoint
+
+def toBytes (l : List Nat) : Bytes := l.map UInt8.ofNat
+def ofBytes (b : Bytes) : List Nat := b.map (·.toNat)
+
+def hex? (s : String) : Option Bytes := (hexToBytes? s.toList).map toBytes
+def hexOf (b : Bytes) : String := bytesToHex (ofBytes b)
+
+/-- the configuration of the running code: limit from the generated table; the allocator is assumed to
+    satisfy any request up to that limit (nothing larger is ever requested: `load_never_crashes`) -/
+def cfgNow : Cfg := { limit := some IB.Generated.ckptDecodeLimit, mem := IB.Generated.ckptDecodeLimit }
+
+def H : Bytes → Bytes := IB.Sha256.sha256Hex
+
+def fields (s : State) : String :=
+  s!"pid={hexOf s.pipelineId} idx={s.completedNodeIndex} ts={s.timestamp} pc={s.partitionCount} " ++
+  s!"ck={hexOf s.checksum} em={hexOf s.execMode} tn={s.metadata.totalNodes} " ++
+  s!"lnt={hexOf s.metadata.lastNodeType} pp={s.metadata.progressPercent.toNat}"
+
+def errClass : DecErr → String
+  | .eof => "ERR eof"
+  | .intType => "ERR int-type"
+  | .limit => "ERR limit"
+  | .utf8 => "ERR utf8"
+  | .checksum => "ERR checksum"
+  | .capacityOverflow => "PANIC"
+  | .allocFail => "ABORT"
+
+def loadAnswer (bytes : Bytes) : String :=
+  match load H cfgNow bytes with
+  | .ok s => "OK " ++ fields s
+  | .error e => errClass e
+
+def state? (args : List String) : Option State := do
+  let pid ← (kv? "pid" args) >>= hex?
+  let idx ← (kv? "idx" args) >>= parseNat?
+  let ts ← (kv? "ts" args) >>= parseNat?
+  let pc ← (kv? "pc" args) >>= parseNat?
+  let ck ← (kv? "ck" args) >>= hex?
+  let em ← (kv? "em" args) >>= hex?
+  let tn ← (kv? "tn" args) >>= parseNat?
+  let lnt ← (kv? "lnt" args) >>= hex?
+  let pp ← (kv? "pp" args) >>= parseNat?
+  if idx > u64Max || ts > u64Max || pc > u64Max || tn > u64Max || pp > 255 then none
+  else pure { pipelineId := pid, completedNodeIndex := idx, timestamp := ts, partitionCount := pc,
+              checksum := ck, execMode := em,
+              metadata := { totalNodes := tn, lastNodeType := lnt, progressPercent := UInt8.ofNat pp } }
+
+def handleEnc (args : List String) : String :=
+  if args.length != 9 then "BAD-OP" else
+  match state? args with
+  | none => "BAD-OP"
+  | some s =>
+    let bytes := encode s
+    s!"OK {hexOf bytes} | {loadAnswer bytes}"
+
+def handleDec : List String → String
+  | ["-"] => loadAnswer []
+  | [h] => match hex? h with
+    | some b => loadAnswer b
+    | none => "BAD-OP"
+  | _ => "BAD-OP"
+
+def names? (s : String) : Option (List Name) :=
+  if s == "-" then some [] else (s.splitOn ",").mapM hex?
+
+def namesOut (l : List Name) : String :=
+  if l.isEmpty then "-" else ",".intercalate (l.map hexOf)
+
+/-- bytewise lexicographic order (the harness sorts listings by `as_bytes()`) -/
+def bytesLe : Bytes → Bytes → Bool
+  | [], _ => true
+  | _ :: _, [] => false
+  | a :: as, b :: bs => if a < b then true else if b < a then false else bytesLe as bs
+
+def sortNames (l : List Name) : List Name := l.mergeSort bytesLe
+
+def fsOf (ns : List Name) : FS := ns.map (fun n => (n, []))
+
+def max? (s : String) : Option (Option Nat) :=
+  if s == "none" then some none else (parseNat? s).map some
+
+def handleSave (args : List String) : String :=
+  if args.length != 4 then "BAD-OP" else
+  match (kv? "max" args) >>= max?, (kv? "pid" args) >>= hex?, (kv? "ts" args) >>= parseNat?,
+        (kv? "dir" args) >>= names? with
+  | some max, some pid, some ts, some dir =>
+    if ts > u64Max then "BAD-OP" else
+    let st : State := { pipelineId := pid, completedNodeIndex := 1, timestamp := ts, partitionCount := 1,
+                        checksum := [], execMode := [],
+                        metadata := { totalNodes := 3, lastNodeType := [], progressPercent := 33 } }
+    "OK " ++ namesOut (sortNames (names (save max (fsOf dir) st)))
+  | _, _, _, _ => "BAD-OP"
+
+def bool? (s : String) : Option Bool :=
+  if s == "T" then some true else if s == "F" then some false else none
+
+def handleLatest (args : List String) : String :=
+  if args.length != 3 then "BAD-OP" else
+  match (kv? "en" args) >>= bool?, (kv? "pid" args) >>= hex?, (kv? "dir" args) >>= names? with
+  | some en, some pid, some dir =>
+    match latest en pid (fsOf dir) with
+    | some n => "SOME " ++ hexOf n
+    | none => "NONE"
+  | _, _, _ => "BAD-OP"
+
+def handleClear (args : List String) : String :=
+  if args.length != 2 then "BAD-OP" else
+  match (kv? "pid" args) >>= hex?, (kv? "dir" args) >>= names? with
+  | some pid, some dir => "OK " ++ namesOut (sortNames (names (clear pid (fsOf dir))))
+  | _, _ => "BAD-OP"
+
+def policy? (s : String) : Option Policy :=
+  if s == "barrier" then some .afterEveryBarrier
+  else match s.splitOn ":" with
+    | ["every", n] => (parseNat? n).map .everyNNodes
+    | ["time", n] => (parseNat? n).map .timeInterval
+    | ["hybrid", b, n] => do pure (.hybrid (← bool? b) (← parseNat? n))
+    | _ => none
+
+/-- the scripted clock: "now" and the last checkpoint time, in nanoseconds -/
+def nowNs : Nat := 1000000000000000
+
+def last? (s : String) : Option (Option Nat) :=
+  if s == "none" then some none
+  else match s.splitOn ":" with
+    | ["ago", n] => (parseNat? n).map fun k => some (nowNs - k * 1000000000 - 1)
+    | ["future", n] => (parseNat? n).map fun k => some (nowNs + k * 1000000000)
+    | _ => none
+
+def handlePolicy (args : List String) : String :=
+  if args.length != 5 then "BAD-OP" else
+  match (kv? "en" args) >>= bool?, (kv? "pol" args) >>= policy?, (kv? "idx" args) >>= parseNat?,
+        (kv? "barrier" args) >>= bool?, (kv? "last" args) >>= last? with
+  | some en, some pol, some idx, some b, some last => boolStr (shouldCheckpoint en pol last nowNs idx b)
+  | _, _, _, _, _ => "BAD-OP"
+
+def handlers : List (String × (List String → String)) :=
+  [("CKPT-ENC", handleEnc), ("CKPT-DEC", handleDec), ("CKPT-SAVE", handleSave),
+   ("CKPT-LATEST", handleLatest), ("CKPT-CLEAR", handleClear), ("CKPT-POLICY", handlePolicy)]
 
 end IB.D12
